@@ -1026,6 +1026,36 @@ def py_sum(x, start=0):
     return acc
 
 
+class SymRange:
+    """range(len(<symbolic sequence>)): the indices 0 .. n-1 of the sequence's index space, in order"""
+
+    def __init__(self, space):
+        self.space = space
+
+    def pyvc_dictcomp(self, interp, kv_fn):
+        """{i: value(i) for i in range(n)}: only the form whose KEY is the index itself is modelled -- a dict with n entries
+        whose items sorted by key are in index order"""
+        from .theory_misc import SymDict
+
+        sp = self.space
+        k, v = kv_fn(V(sp.u))
+        if not (isinstance(k, V) and z3.eq(z3.simplify(k.t), sp.u)):
+            raise Undecided("dict comprehension over a symbolic range whose key is not the index")
+        v = v if isinstance(v, V) else V(to_term(v))
+        if v.axes:
+            raise Undecided("dict comprehension with a non-scalar value")
+        _use("{i: f(i) for i in range(n)}: a dict with n entries; its items sorted by key are in index order")
+        return SymDict(sp, sp.n if z3.is_expr(sp.n) else z3.IntVal(sp.n), v.t)
+
+
+def py_range(*args):
+    if len(args) == 1 and isinstance(args[0], SeqLen):
+        return SymRange(args[0].space)
+    if any(isinstance(x, (V, SeqLen)) for x in args):
+        raise Undecided("range over a symbolic bound")
+    return range(*args)
+
+
 def builtins_table():
     from .interp import ExcClass
 
@@ -1048,7 +1078,7 @@ def builtins_table():
         "sorted": py_sorted,
         "sum": py_sum,
         "zip": lambda *a: list(zip(*a)),
-        "range": range,
+        "range": py_range,
         "any": lambda x: any(x),
         "all": lambda x: all(x),
         "bool": bool,
